@@ -276,6 +276,18 @@ func (in *Interp) visitInstr(fr *frame, instr ssa.Instruction) continuation {
 		idx := fr.get(instr.Index)
 		checkPoison(x)
 		var elems []Value
+		if ob, ok := x.(OBytes); ok {
+			// element of []byte(opaque string): bounds check through the
+			// solver, the element is seq.nth
+			it := in.int64Term(idx)
+			n := in.ctx.SeqLen64(ob.T)
+			in.addPC(in.ctx.Cmp(smt.OpSLe, in.ctx.BVConst(0, 64), n))
+			if !in.decide(in.ctx.Cmp(smt.OpULt, it, n)) {
+				panic(runtimeError("index out of range"))
+			}
+			fr.env[instr] = OByteRef{T: ob.T, Idx: it}
+			break
+		}
 		switch x := x.(type) {
 		case []Value:
 			elems = x
@@ -742,6 +754,8 @@ func (in *Interp) callBuiltin(caller *frame, callpos token.Pos, fn *ssa.Builtin,
 		switch x := args[0].(type) {
 		case string, XStr, OStr:
 			return in.strLen(x)
+		case OBytes:
+			return in.strLen(OStr{x.T})
 		case Array:
 			return mkInt(uint64(len(x)), 64)
 		case *Value:
